@@ -38,13 +38,19 @@ Proof.
       rewrite (IH (layout_end aoff (it :: r)) k0 kbuf _ (align8 aoff + isize it) l2 q); auto. lia.
 Qed.
 
-(* (f) truncation: the file cut anywhere before its end *)
-Lemma truncation_nonempty its p q : items_ok its ->
-  kas_write its = p ++ q -> q <> [] -> p <> [] -> kas_open true p = Err E_FORMAT.
+(* (f) truncation: the file cut anywhere before its end.  Both read modes share everything up to
+   the key buffer; the eager mode then fails on the first array block that is cut, the lazy mode
+   returns the item list (arrays are only read on demand). *)
+Lemma truncation_cases (b : bool) its p q : items_ok its ->
+  kas_write its = p ++ q -> q <> [] -> p <> [] ->
+  kas_open b p = Err E_FORMAT
+  \/ (b = false /\ its <> [] /\ exists l3, p = kw_header its ++ kw_descs its ++ kw_keys its ++ l3
+                                        /\ blocks (align8 (kw_a its)) its = l3 ++ q).
 Proof.
   intros Hok Hw Hq Hpne.
   destruct its as [|it r].
   - (* header-only store *)
+    left.
     unfold kas_write in Hw. cbn [zlen length layout keys_len layout_end descs_bytes keys_bytes arrays_bytes map concat] in Hw.
     rewrite !app_nil_r in Hw.
     assert (Hs : (exists l, l <> [] /\ header_bytes kas_file_version_major kas_file_version_minor (zlen (@nil item))
@@ -61,11 +67,12 @@ Proof.
     rewrite (kas_write_parts _ Hne) in Hw.
     apply split_cases in Hw as [(l & Hl & Hh)|(l & Hp & Hw)].
     + (* cut inside the header *)
-      unfold kas_open. rewrite read_header_nonempty by auto.
+      left. unfold kas_open. rewrite read_header_nonempty by auto.
       unfold read_header_body. rewrite hs64.
       rewrite <- (kw_header_length (it :: r)). rewrite (take_shorter _ p l Hh Hl). reflexivity.
     + apply split_cases in Hw as [(l2 & Hl2 & Hd)|(l2 & Hp2 & Hw)].
       * (* cut inside the descriptors *)
+        left.
         pose proof (kw_facts _ Hok Hne) as (Hn & Hk & Ha & Hal & Hfs & Hlt & Hkeys).
         rewrite Hp. unfold kas_open, kw_header.
         rewrite read_header_ok by (try apply zeros_length; lia).
@@ -75,13 +82,22 @@ Proof.
         change (kw_n (it :: r)) with (zlen (it :: r)).
         rewrite <- (kw_descs_length (it :: r)). rewrite (take_shorter _ l l2 Hd Hl2). reflexivity.
       * rewrite Hp, Hp2.
-        rewrite kas_open_prefix by auto.
+        rewrite kas_open_prefix_any by auto.
         apply split_cases in Hw as [(l3 & Hl3 & Hk)|(l3 & Hp3 & Hw)].
-        -- rewrite (take_shorter _ l2 l3 Hk Hl3). reflexivity.
+        -- left. rewrite (take_shorter _ l2 l3 Hk Hl3). reflexivity.
         -- subst l2. rewrite take_app.
-           pose proof (kw_facts _ Hok Hne) as (Hn & Hk & Ha & Hal & Hfs & Hlt & Hkeys).
-           destruct Hok as (Hall & _ & _).
-           eapply read_blocks_trunc; eauto; try lia; try reflexivity.
+           destruct b.
+           ++ left.
+              pose proof (kw_facts _ Hok Hne) as (Hn & Hk & Ha & Hal & Hfs & Hlt & Hkeys).
+              destruct Hok as (Hall & _ & _).
+              eapply read_blocks_trunc; eauto; try lia; try reflexivity.
+           ++ right. split; auto. split; auto. exists l3. split; auto.
+Qed.
+
+Lemma truncation_nonempty its p q : items_ok its ->
+  kas_write its = p ++ q -> q <> [] -> p <> [] -> kas_open true p = Err E_FORMAT.
+Proof.
+  intros Hok Hw Hq Hp. destruct (truncation_cases true its p q Hok Hw Hq Hp) as [H|(H & _)]; [exact H | discriminate].
 Qed.
 
 Theorem truncation_rejected_split its p q : items_ok its ->
